@@ -88,7 +88,8 @@ CHECKS["C12"] = dict(
          "passed through MarshalMessage/ParseMessage; non-trivial = the specification expects ≥1 problem; distinct = pair identity",
     exhaustive={"quick": False, "thorough": False},
     assumptions=["field/details label vocabulary is taken from the implementation's metric labels", "hop limit 0 on either side is a don't-care region (RFC exempts it, the statement does not)"],
-    parts=[dict(name="verify", pkg="internal/corerad", test="TestVerifC12", shards=S16)],
+    parts=[dict(name="verify", pkg="internal/corerad", test="TestVerifC12", shards=S16),
+           dict(name="handle", pkg="internal/corerad", test="TestVerifC12Handle", shards=S16, env={"VERIF_PART": "handle"}, gomaxprocs=1, gogc_off=True)],
 )
 
 DET = dict(gomaxprocs=1, gogc_off=True)
